@@ -379,7 +379,12 @@ const JSON_TAIL: &str = r#""game_uuid":"a1eb7182-796e-3b3e-941d-38ca71b2a4a8","s
 
 fn header(version: &str) -> Vec<u8> {
     let mut h = MAGIC.to_vec();
-    h.extend_from_slice(format!("{{\"version\":\"{}\",{}", version, JSON_TAIL).as_bytes());
+    let mut json = format!("{{\"version\":\"{}\",{}", version, JSON_TAIL);
+    if version == "1" {
+        // version 1 files carry the start time in another format
+        json = json.replace("2018-01-01T00:00:00+01:00", "2018-01-01 00:00:00 +0100");
+    }
+    h.extend_from_slice(json.as_bytes());
     h.push(0);
     h
 }
@@ -717,7 +722,7 @@ fn do_stream(cx: &mut Ctx, stream: Vec<u8>, label: &str, full_frag: bool) {
                     cx.o.check(want == item_ticks, "-", &id, || {
                         let k = want.iter().zip(item_ticks.iter()).position(|(a, b)| a != b).unwrap_or(want.len().min(item_ticks.len()));
                         format!("stream {} ({}): message {} is reported in tick {:?} but doc/teehistorian.md numbers it {:?}; items [{}]",
-                                sid, hex(&data[body_at..]), k, item_ticks.get(k), want.get(k), text)
+                                sid, hex(&data), k, item_ticks.get(k), want.get(k), text)
                     });
                     // running sums
                     let payload: Vec<&String> = base.items.iter().filter(|s| !s.starts_with("TS") && !s.starts_with("TE")).collect();
@@ -806,11 +811,6 @@ fn do_stream(cx: &mut Ctx, stream: Vec<u8>, label: &str, full_frag: bool) {
 
 fn main() {
     let a = Args::parse();
-    let o = Out::new(&a, "S: one stream (header + records from a random server history: joins, moves, leaves, explicit/implicit/skipped ticks, inputs, messages, console commands, every known extension item, unknown UUIDs; DDNet-like and free record order; version 1/2/other; truncated, corrupted and garbage streams) read in one piece, full item text; F: the same stream under one fragmentation of the read callback (byte-by-byte, every two-piece split, random splits with zero-length reads), digest of the item text. distinct = distinct (generator, final outcome) classes");
-    let r = Rng::new(a.seed);
-    let th = a.thorough();
-    let mut cx = Ctx { o, r, th, sid: 0 };
-
     if a.extra.len() == 2 && a.extra[0] == "--big-cid" {
         // child mode of the allocation probe: one PLAYER_NEW (or INPUT_NEW with a leading '-') record
         let v: i64 = a.extra[1].parse().unwrap();
@@ -833,6 +833,11 @@ fn main() {
         println!("{} in {} ms", full_text(&r), t0.elapsed().as_millis());
         return;
     }
+    let o = Out::new(&a, "S: one stream (header + records from a random server history: joins, moves, leaves, explicit/implicit/skipped ticks, inputs, messages, console commands, every known extension item, unknown UUIDs; DDNet-like and free record order; version 1/2/other; truncated, corrupted and garbage streams) read in one piece, full item text; F: the same stream under one fragmentation of the read callback (byte-by-byte, every two-piece split, random splits with zero-length reads), digest of the item text. distinct = distinct (generator, final outcome) classes");
+    let r = Rng::new(a.seed);
+    let th = a.thorough();
+    let mut cx = Ctx { o, r, th, sid: 0 };
+
     if let Some(path) = &a.replay {
         // replay: re-run the streams named in a replay file's violation texts
         let txt = std::fs::read_to_string(path).unwrap_or_default();
@@ -887,10 +892,124 @@ fn main() {
             wi(&mut s, v);
         }
         do_stream(&mut cx, s, "pin-maxcid", true);
+        // one pinned stream per error value and per oddity
+        let ints = |version: &str, vs: &[i32]| {
+            let mut s = header(version);
+            for v in vs {
+                wi(&mut s, *v);
+            }
+            s
+        };
+        let z10 = [0i32; 10];
+        let mut pins: Vec<Vec<u8>> = vec![
+            ints("2", &[-4, 3, -1]),                                  // PLAYER_OLD without NEW
+            ints("2", &[-3, 3, 0, 0, -3, 3, 1, 1, -1]),               // NEW twice
+            ints("2", &[3, 1, 1, -1]),                                // DIFF without NEW
+            ints("2", &[-3, -1, 0, 0, -1]),                           // negative client id
+            ints("2", &[-4, -5, -1]),
+            ints("2", &[-2, -1, -1]),                                 // negative dt
+            ints("2", &[-12, -1]),                                    // unknown record type
+            ints("1", &[-8, 1, -11]),                                 // EX in a version 1 file
+            ints("1", &[-3, 1, 5, 5, 1, 1, 1, -4, 1, -1]),            // a valid version 1 file
+            ints("2", &[-3, 2, i32::MAX, i32::MIN, 2, 1, -1, 2, i32::MAX, i32::MIN, -4, 2, -1]), // wrapping
+        ];
+        let mut s = ints("2", &[-5, 1]);
+        for v in z10 { wi(&mut s, v); }
+        wi(&mut s, -1);
+        pins.push(s); // INPUT_DIFF without NEW
+        let mut s = ints("2", &[-6, -7]);
+        for v in z10 { wi(&mut s, v); }
+        pins.push(s); // INPUT_NEW with a negative client id
+        let mut s = ints("2", &[-6, 1]);
+        for v in [i32::MAX, i32::MIN, 1, -1, 0, 0, 0, 0, 0, 7] { wi(&mut s, v); }
+        for _ in 0..3 {
+            wi(&mut s, -5);
+            wi(&mut s, 1);
+            for v in [1, -1, i32::MAX, i32::MIN, 0, 0, 0, 0, 0, -3] { wi(&mut s, v); }
+        }
+        wi(&mut s, -1);
+        pins.push(s); // inputs wrap around
+        for n in [-1, 16, 17, 18, i32::MAX] {
+            let mut s = ints("2", &[-10, -1, -1]);
+            ws(&mut s, b"cmd");
+            wi(&mut s, n);
+            for k in 0..n.clamp(0, 19) { ws(&mut s, &[b'a' + k as u8]); }
+            wi(&mut s, -1);
+            pins.push(s); // console command argument counts
+        }
+        for (len, data) in [(3i32, vec![1u8, 2, 3]), (-1, vec![]), (2, vec![0x80]), (i32::MAX, vec![1, 2])] {
+            let mut s = ints("2", &[-7, 4, len]);
+            s.extend(data);
+            wi(&mut s, -1);
+            pins.push(s); // message lengths: fine, negative, cut short, absurd
+        }
+        for (inner, extra) in [(vec![5u8, 1], vec![]), (vec![5u8], vec![]), (vec![], vec![]), (vec![5, 1, 9, 9], vec![]), (vec![0x85], vec![0x40u8])] {
+            // AUTH_INIT-like struct (cid, level, identity): complete, cut short inside `data`, empty, ...
+            let mut s = ints("2", &[-11]);
+            s.extend_from_slice(&fi::UUID_PLAYER_TEAM);
+            wi(&mut s, inner.len() as i32);
+            s.extend(inner);
+            s.extend(extra);
+            wi(&mut s, -8);
+            wi(&mut s, 2);
+            wi(&mut s, -1);
+            pins.push(s);
+        }
+        for s in pins {
+            do_stream(&mut cx, s, "pin-errors", true);
+        }
         // header only / nothing
         do_stream(&mut cx, header("2"), "pin-header", true);
         do_stream(&mut cx, vec![], "pin-header", true);
         do_stream(&mut cx, MAGIC.to_vec(), "pin-header", true);
+    }
+
+    // ---- known finding K17: a PLAYER_NEW / INPUT_NEW record with a huge client id makes the
+    // reader's VecMap allocate (cid + 1) slots.  Run in a child process under a 4 GB address-space
+    // limit so that the failed allocation aborts the child instead of stalling this machine.
+    for (what, arg) in [("PLAYER_NEW cid=2147483647", "2147483647"), ("INPUT_NEW cid=2147483647", "-2147483647")] {
+        let exe = std::env::current_exe().unwrap();
+        let dir = a.out.join("k17");
+        let cmd = format!("ulimit -v 4000000 && exec '{}' quick 1 '{}' --big-cid {}", exe.display(), dir.display(), arg);
+        let child = std::process::Command::new("sh").arg("-c").arg(&cmd)
+            .stdout(std::process::Stdio::piped()).stderr(std::process::Stdio::null()).spawn();
+        let mut child = match child {
+            Ok(c) => c,
+            Err(_) => {
+                cx.o.count("k17-probe-unavailable");
+                continue;
+            }
+        };
+        let t0 = std::time::Instant::now();
+        let mut status = None;
+        while t0.elapsed().as_secs() < 60 {
+            match child.try_wait() {
+                Ok(Some(st)) => {
+                    status = Some(st);
+                    break;
+                }
+                Ok(None) => std::thread::sleep(std::time::Duration::from_millis(20)),
+                Err(_) => break,
+            }
+        }
+        if status.is_none() {
+            let _ = child.kill();
+            let _ = child.wait();
+        }
+        let mut outp = String::new();
+        if let Some(mut so) = child.stdout.take() {
+            use std::io::Read;
+            let _ = so.read_to_string(&mut outp);
+        }
+        let fine = status.map(|s| s.success()).unwrap_or(false) && outp.contains("END");
+        cx.o.tick("K17probe", if fine { "k17-fine" } else { "k17-abort" });
+        let how = match status {
+            None => "did not finish within 60 s".to_string(),
+            Some(st) => format!("ended with {} (output {:?})", st, outp.trim()),
+        };
+        cx.o.check(fine, "K17", "probe", || {
+            format!("a single {} record (7 bytes after the header) makes the reader allocate one VecMap slot per client id up to the largest: the child process {}", what, how)
+        });
     }
 
     // ---- generated histories, every fragmentation
